@@ -19,6 +19,9 @@
 #include <syslog.h>
 #include <sys/types.h>
 
+#ifdef VERIF_NATIVE
+#include "verif_native.h"
+#endif
 /* ---- tagged argument for the fixed-arity printf family ---------------------------- */
 typedef struct { int kind; const char *s; long long i; unsigned long long u; } verif_arg_t; /* kind 0 none 1 string 2 signed 3 unsigned */
 static inline verif_arg_t verif_arg_s(const char *s){ verif_arg_t a; a.kind=1; a.s=s; a.i=0; a.u=0; return a; }
@@ -42,6 +45,7 @@ void verif_syslog1(int prio, const char *fmt, verif_arg_t a0);
 #define VERIF_SN3(b,n,f,a,c,d)     verif_snprintf_core(b,n,f,3,VERIF_ARG(a),VERIF_ARG(c),VERIF_ARG(d),VERIF_NONE,VERIF_NONE)
 #define VERIF_SN4(b,n,f,a,c,d,e)   verif_snprintf_core(b,n,f,4,VERIF_ARG(a),VERIF_ARG(c),VERIF_ARG(d),VERIF_ARG(e),VERIF_NONE)
 #define VERIF_SN5(b,n,f,a,c,d,e,g) verif_snprintf_core(b,n,f,5,VERIF_ARG(a),VERIF_ARG(c),VERIF_ARG(d),VERIF_ARG(e),VERIF_ARG(g))
+#ifndef VERIF_NATIVE
 #undef snprintf
 #define snprintf(b,n,...) VERIF_SEL6(__VA_ARGS__,VERIF_SN5,VERIF_SN4,VERIF_SN3,VERIF_SN2,VERIF_SN1,VERIF_SN0)(b,n,__VA_ARGS__)
 
@@ -58,6 +62,7 @@ void verif_syslog1(int prio, const char *fmt, verif_arg_t a0);
 #define sscanf(s,f,p0,p1) verif_sscanf2(s,f,(void*)(p0),(void*)(p1))
 #undef syslog
 #define syslog(p,f,a) verif_syslog1(p,f,VERIF_ARG(a))
+#endif /* !VERIF_NATIVE */
 
 /* ---- ghost state shared by packs and harnesses ------------------------------------ */
 /* registered read-only input strings: object + exact length (first NUL) */
@@ -83,6 +88,7 @@ char nondet_char(void); _Bool nondet_bool(void); unsigned long nondet_ulong(void
 /* glibc implements the <ctype.h> predicates as table-lookup macros; use the function forms
    (cbmc's library gives them loop-free bodies) */
 #include <ctype.h>
+#ifndef VERIF_NATIVE
 #undef isdigit
 #undef isspace
 #undef isalpha
@@ -91,6 +97,7 @@ char nondet_char(void); _Bool nondet_bool(void); unsigned long nondet_ulong(void
 #undef tolower
 #undef isupper
 #undef islower
+#endif /* ctype */
 
 /* open(2) is variadic: fixed-arity model (same DFCC reason as snprintf) */
 #include <fcntl.h>
@@ -98,5 +105,7 @@ int verif_open3(const char *path, int flags, unsigned mode);
 #define VERIF_SEL3(_0,_1,_2,NAME,...) NAME
 #define VERIF_OP2(p,f)   verif_open3(p,f,0)
 #define VERIF_OP3(p,f,m) verif_open3(p,f,(unsigned)(m))
+#ifndef VERIF_NATIVE
 #undef open
 #define open(p,...) VERIF_SEL3(p,__VA_ARGS__,VERIF_OP3,VERIF_OP2)(p,__VA_ARGS__)
+#endif
